@@ -451,6 +451,10 @@ def target_compat(ctx: Ctx) -> None:
                     if s.value is not None:
                         deriv.add(unparse(s.value, 200))
             alltxt = txt + " " + " ".join(deriv)
+            # getattr(target, "shards", None) is target.shards
+            import re as _re
+
+            alltxt = _re.sub(r"getattr\(target, '(\w+)'(, [^)]*)?\)", r"target.\1", alltxt)
             if f"target.{kind}" not in alltxt:
                 continue
             if kind == "chunks" and not ("source.chunk" in alltxt):
@@ -469,8 +473,13 @@ def target_compat(ctx: Ctx) -> None:
                         if isinstance(st, ast.Assign) and "rechunk(" in unparse(st.value) and mentions_name(st.targets[0], "source") and r not in cfg.reachable_from(sink_node):
                             # the source is rechunked to the very attribute that was compared
                             rc = [c_ for c_ in ast.walk(st.value) if isinstance(c_, ast.Call) and isinstance(c_.func, ast.Attribute) and c_.func.attr == "rechunk"]
-                            if rc and rc[0].args and f"target.{kind}" in unparse(rc[0].args[0]):
-                                return True
+                            if rc and rc[0].args:
+                                a_txt = unparse(rc[0].args[0])
+                                if isinstance(rc[0].args[0], ast.Name):
+                                    a_txt += " " + " ".join(unparse(s_.value, 200) for s_ in fl.rdefs(rc[0].args[0].id, r) if s_.value is not None)
+                                a_txt = _re.sub(r"getattr\(target, '(\w+)'(, [^)]*)?\)", r"target.\1", a_txt)
+                                if f"target.{kind}" in a_txt:
+                                    return True
         return False
 
     # (finding keys digest the sink *argument* — `target_store=target` — not the whole call, so
